@@ -65,7 +65,19 @@ type selfExplorer struct {
 	noNote             bool // do not register pushed frames as pop candidates (the caller registers tagged frames itself)
 }
 
-const maxLag = 6
+// lagBound: how many events one side may be ahead. On the pinned tree the tokenizer is never more
+// than 1 event ahead (a token value), the parser never more than 4 (value push, hand-off store or
+// callback + send, reset); one more is allowed.
+func (ex *selfExplorer) lagBound() int {
+	if ex.m.in.handler != nil {
+		return 2
+	}
+	return 5
+}
+
+const maxLag = 5
+
+var maxLagSeen int64
 
 type zpath struct {
 	z      *State
@@ -546,8 +558,11 @@ func (ex *selfExplorer) process(in *Interp, p *sstate) (res selfRes) {
 					evIn = zp.input
 					continue
 				}
-				if len(nx) > maxLag || len(nz) > maxLag {
-					res.undec = append(res.undec, fmt.Sprintf("%s[self]: event lag exceeds %d in mode %s", m.Name, maxLag, mode))
+				if l := len(nx) + len(nz); l > int(atomic.LoadInt64(&maxLagSeen)) {
+					atomic.StoreInt64(&maxLagSeen, int64(l))
+				}
+				if len(nx) > ex.lagBound() || len(nz) > ex.lagBound() {
+					res.undec = append(res.undec, fmt.Sprintf("%s[self]: one chunking is more than %d events ahead of the other in mode %s (on the pinned tree never more than %d): the two sides no longer describe the same tokens", m.Name, ex.lagBound(), mode, ex.lagBound()-1))
 					continue
 				}
 				paired++
@@ -629,7 +644,7 @@ func (ex *selfExplorer) round(starts []*State) {
 				defer wg.Done()
 				for {
 					i := int(atomic.AddInt64(&next, 1))
-					if i >= len(level) {
+					if i >= len(level) || ex.stats.States+i > 60000 {
 						return
 					}
 					results[i] = ex.process(in, level[i])
@@ -685,8 +700,8 @@ func (ex *selfExplorer) round(starts []*State) {
 			}
 		}
 		level = nextLevel
-		if ex.stats.States > 400000 {
-			ex.undec[m.Name+"[self]: more than 400000 product states"] = true
+		if ex.stats.States > 60000 {
+			ex.undec[m.Name+"[self]: more than 60000 product states (the clean tree needs under 15000)"] = true
 			break
 		}
 	}
